@@ -16,7 +16,7 @@ EXPLANATION = (
     "reviewed instances whose consumer is order-insensitive (set membership, deletion order) or which is sorted "
     "before use (source walk, see C11.2); (3) no archive write is issued from a spawned task on those paths, so "
     "writes happen in program order."
-    " Added in later rounds: no branch on the write paths tests a clock/random/environment-derived value (C17.1c, with stored time stamps read back treated as data); an unordered collection is consumed whole (C17.2c)."
+    " Added in later rounds: no branch on the write paths tests a clock/random/environment-derived value (C17.1c, with stored time stamps read back treated as data); an unordered collection is consumed whole (C17.2c); the place where the source tree lives on this host is a second taint source that reaches nothing written (C17.1d, with a positive control at SourceTree::open_file)."
 )
 UNDECIDED = ["bit-identity of the compressor output across runs (snap is deterministic; trusted)", "platform differences", "comparison of two real replays"]
 ASSUMPTIONS = ["snap and serde_json are deterministic functions of their input"]
@@ -27,6 +27,8 @@ UNORDERED = re.compile(r"^std::collections::(HashMap|HashSet)::<.*>::(iter|iter_
                        r"|std::collections::(hash_map|hash_set)::.*IntoIterator>::into_iter$|<std::collections::Hash(Map|Set)<.*> as std::iter::IntoIterator>::into_iter$"
                        r"|<&'a std::collections::Hash(Map|Set)<.*> as std::iter::IntoIterator>::into_iter$"
                        r"|^tokio::task::JoinSet::<T>::(join_next|join_all|try_join_next)|^std::fs::read_dir$|^tokio::fs::read_dir$|^tokio::fs::ReadDir::next_entry")
+HOST_SOURCES = re.compile(r"^source::SourceTree::path$|^std::env::(current_dir|home_dir|temp_dir|current_exe)$|canonicalize$"
+                          r"|^(std|tokio)::fs::DirEntry::path$")
 ALLOWED_TIME_FIELDS = {("band::Head", "start_time"), ("band::Tail", "end_time")}
 
 # (function, callee) -> why the order cannot reach written bytes
@@ -39,6 +41,67 @@ UNORDERED_ALLOWED = {
 }
 ENTRIES = ["backup::backup", "archive::Archive::delete_bands", "archive::Archive::create", "blockdir::BlockDir::create"]
 SKIP_FILES = re.compile(r"^src/(transport/|monitor|termui|test_fixtures|mount)")
+
+
+def _value_reaches_archive(lib, T, allowed_fields):
+    """Where does a value the solved taint `T` marks reach the archive: a path or the content given to
+    Transport::write / create_dir, a field of a serialised document, an index entry or a block address."""
+    n_sites = 0
+    problems = []
+    for b in rules.user_bodies(lib):
+        if SKIP_FILES.search(b.file) or rules.is_derive_body(b):
+            continue
+        is_cl = b.kind in ("closure", "coroutine")
+        for e in b.events:
+            if e.bb not in b.live or e.callee == rules.POLL:
+                continue
+            nm = e.name
+            if nm in ("transport::Transport::write", "transport::Transport::create_dir", "transport::Transport::chdir"):
+                n_sites += 1
+                for i, a in enumerate(e.args[1:3], start=1):
+                    V, D = T._read(b, a, is_cl)
+                    if taint.SRC in V:
+                        problems.append((b, e, "argument %d of %s depends on WHAT" % (i, nm.split("::")[-1])))
+            if nm == "jsonio::write_json":
+                n_sites += 1
+                V, D = T._read(b, e.args[1], is_cl)
+                if taint.SRC in V:
+                    problems.append((b, e, "the file name given to write_json depends on WHAT"))
+    # documents: every construction of a serialised document type
+    docs = {"band::Head", "band::Tail", "archive::ArchiveHeader"}
+    n_docs = 0
+    for b in rules.user_bodies(lib):
+        if rules.is_derive_body(b) or SKIP_FILES.search(b.file):
+            continue
+        is_cl = b.kind in ("closure", "coroutine")
+        for adt in docs:
+            for bb, j, s in rules.agg_sites(b, adt):
+                n_docs += 1
+                for f, op in zip(s["rv"]["fields"], s["rv"]["ops"]):
+                    V, D = T._read(b, op, is_cl)
+                    if taint.SRC in V and (adt, f) not in allowed_fields:
+                        problems.append((b, None, "%s.%s depends on WHAT" % (adt, f)))
+        for bb, j, s in rules.agg_sites(b, "index::entry::IndexEntry") + rules.agg_sites(b, "blockdir::Address"):
+            for f, op in zip(s["rv"]["fields"], s["rv"]["ops"]):
+                V, D = T._read(b, op, is_cl)
+                if taint.SRC in V:
+                    problems.append((b, None, "index entry field %s depends on WHAT" % f))
+    bad_heap = [h for h in T.heap if h[0] in ("index::entry::IndexEntry", "blockdir::Address", "archive::ArchiveHeader") or
+                (h[0] in ("band::Head", "band::Tail") and h not in allowed_fields)]
+    for h in bad_heap:
+        problems.append((None, None, "%s.%s is assigned WHAT" % h))
+    return problems, n_sites, n_docs
+
+
+def _location_control(lib, TH):
+    """Positive control for C17.1d: the path SourceTree::open_file opens is seen to depend on the root path."""
+    for fb in lib.family("source::SourceTree::open_file"):
+        for e in fb.events:
+            if e.bb in fb.live and e.name in ("std::fs::File::open", "std::fs::OpenOptions::open") and e.args:
+                V, D = TH._read(fb, e.args[-1], fb.kind in ("closure", "coroutine"))
+                if taint.SRC in V:
+                    return True
+    return False
 
 
 def run(ck, w):
@@ -56,53 +119,8 @@ def run(ck, w):
     ck.stats["nondet_taint"] = {"iterations": iters, "heap_fields_tainted": sorted("%s.%s" % x for x in T.heap)}
     o = ck.ob("C17.1a", "no path or content given to Transport::write / create_dir depends on the clock, randomness or the environment, "
                         "except Head.start_time and Tail.end_time")
-    n_sites = 0
-    problems = []
-    for b in rules.user_bodies(lib):
-        if SKIP_FILES.search(b.file) or rules.is_derive_body(b):
-            continue
-        is_cl = b.kind in ("closure", "coroutine")
-        for e in b.events:
-            if e.bb not in b.live or e.callee == rules.POLL:
-                continue
-            nm = e.name
-            if nm in ("transport::Transport::write", "transport::Transport::create_dir", "transport::Transport::chdir"):
-                n_sites += 1
-                for i, a in enumerate(e.args[1:3], start=1):
-                    V, D = T._read(b, a, is_cl)
-                    if taint.SRC in V:
-                        problems.append((b, e, "argument %d of %s depends on a nondeterministic value" % (i, nm.split("::")[-1])))
-            if nm == "jsonio::write_json":
-                n_sites += 1
-                V, D = T._read(b, e.args[1], is_cl)
-                if taint.SRC in V:
-                    problems.append((b, e, "the file name given to write_json is nondeterministic"))
-                # the document: which of its fields are tainted?
-                for oo in flow.origins(b, e.args[2]):
-                    pass
-    # documents: every construction of a serialised document type
-    docs = {"band::Head", "band::Tail", "archive::ArchiveHeader"}
-    n_docs = 0
-    for b in rules.user_bodies(lib):
-        if rules.is_derive_body(b) or SKIP_FILES.search(b.file):
-            continue
-        is_cl = b.kind in ("closure", "coroutine")
-        for adt in docs:
-            for bb, j, s in rules.agg_sites(b, adt):
-                n_docs += 1
-                for f, op in zip(s["rv"]["fields"], s["rv"]["ops"]):
-                    V, D = T._read(b, op, is_cl)
-                    if taint.SRC in V and (adt, f) not in ALLOWED_TIME_FIELDS:
-                        problems.append((b, None, "%s.%s depends on a nondeterministic value" % (adt, f)))
-        for bb, j, s in rules.agg_sites(b, "index::entry::IndexEntry") + rules.agg_sites(b, "blockdir::Address"):
-            for f, op in zip(s["rv"]["fields"], s["rv"]["ops"]):
-                V, D = T._read(b, op, is_cl)
-                if taint.SRC in V:
-                    problems.append((b, None, "index entry field %s depends on a nondeterministic value" % f))
-    bad_heap = [h for h in T.heap if h[0] in ("index::entry::IndexEntry", "blockdir::Address", "archive::ArchiveHeader") or
-                (h[0] in ("band::Head", "band::Tail") and h not in ALLOWED_TIME_FIELDS)]
-    for h in bad_heap:
-        problems.append((None, None, "%s.%s is assigned a nondeterministic value" % h))
+    problems, n_sites, n_docs = _value_reaches_archive(lib, T, ALLOWED_TIME_FIELDS)
+    problems = [(b_, e_, m_.replace("WHAT", "a nondeterministic value")) for b_, e_, m_ in problems]
     ck.floor("C17.1a.n", "archive write / mkdir call sites and document constructions checked", n_sites + n_docs, 10)
     time_ok = ALLOWED_TIME_FIELDS <= T.heap
     if problems:
@@ -115,6 +133,30 @@ def run(ck, w):
         ck.ok(o)
     else:
         ck.fail(o, "cv.taint", "control-failed", "the documented time stamps are not found tainted (analysis lost the flow): %s" % sorted(T.heap))
+
+    # ---- 1d. where the source lives on this host ---------------------------------------------------------------
+    o = ck.ob("C17.1d", "where the source tree lives on this host (SourceTree's root path, the current directory, canonicalised or "
+                        "directory-entry absolute paths) reaches no written name, document field, index entry or block address: two "
+                        "copies of one tree give the same archive")
+    host_io = re.compile(taint.IO_CALLS.pattern.replace(r"|^std::env::", ""))
+    TH = taint.Taint(w, set(), decoded_enums=set(), source_calls=HOST_SOURCES, bounded_sanitize=False, io_calls=host_io,
+                     skip_bodies=re.compile(r"^transport::Transport::temp$|^transport::local::Protocol::temp$|^test_fixtures::"),
+                     no_prop=re.compile(r"^tracing|monitor::Monitor::(count|error|start_task)|Task::(set_name|increment|set_total)$"))
+    TH.heap.add(("source::SourceTree", "path"))
+    TH.solve()
+    hp, hs, hd = _value_reaches_archive(lib, TH, set())
+    roots_ = [e for b_ in rules.user_bodies(lib) for e in b_.events if e.bb in b_.live and HOST_SOURCES.search(e.name)]
+    st_ = lib.adts.get("source::SourceTree")
+    if st_ is None or not any(f_["name"] == "path" for v_ in st_["variants"] for f_ in v_["fields"]):
+        ck.fail(o, "source::SourceTree", "anchor-missing", "SourceTree.path not found: the root of the source tree is held elsewhere")
+    elif not _location_control(lib, TH):
+        ck.fail(o, "cv.taint", "control-failed", "the analysis does not see the root path reach File::open in SourceTree::open_file (flow lost)")
+    elif hp:
+        for b_, e_, m_ in hp:
+            m_ = m_.replace("WHAT", "the location of the source tree")
+            ck.fail(o, b_.root if b_ else "archive document", m_, m_, e_.site() if e_ else None)
+    else:
+        ck.ok(o, "%d write sites, %d document constructions; %d direct reader(s) of the location" % (hs, hd, len(roots_)), instances=hs + hd)
 
     # ---- 1c. control dependence ---------------------------------------------------------------------------
     o = ck.ob("C17.1c", "no branch on the write paths tests a value derived from the clock, randomness or the environment "
